@@ -117,6 +117,7 @@ fn main() {
     }
     if id == "C18" && replay.is_none() && std::env::var("VERIF_C18_CHILD").is_err() {
         let code = jbverif::isolate::run_isolated(&id, tier, seed);
+        jbverif::util::cleanup_scratch();
         std::process::exit(code);
     }
     if std::env::var("VERIF_C18_CHILD").is_ok() {
